@@ -78,32 +78,41 @@ def witnessProg : Prog :=
     body := [.assign 1 (.ite (.isNone 0 false) (.disp false [.lit (.int 1)]) (.disp false [.lit (.bool true)])),
              .ret (.sub (.var 1) 0)] }
 
-/-- decidable form of the statement for one argument tuple -/
-def soundOn (prog : Prog) (args : List Obj) : Bool :=
-  (exec prog args).2.all fun no => (infer prog).log.any fun nT => nT.1 == no.1 && mem liveTable no.2 nT.2
+/-- a kernel-evaluable upper bound of `mem`: exact on literals, `true` elsewhere -/
+def memK (o : Obj) : Ty → Bool
+  | .known k => Obj.same o k
+  | _ => true
 
-theorem soundOn_of_InferSound (prog : Prog) (args : List Obj) (h : InferSound prog)
-    (hargs : argsOk prog.params args = true) : soundOn prog args = true := by
-  unfold soundOn
+theorem memK_of_mem (o : Obj) (T : Ty) (h : mem liveTable o T = true) : memK o T = true := by
+  cases T <;> simp_all [memK, mem]
+
+/-- decidable necessary condition of the statement for one argument tuple -/
+def soundOnK (prog : Prog) (args : List Obj) : Bool :=
+  (exec prog args).2.all fun no => (infer prog).log.any fun nT => nT.1 == no.1 && memK no.2 nT.2
+
+theorem soundOnK_of_InferSound (prog : Prog) (args : List Obj) (h : InferSound prog)
+    (hargs : argsOk prog.params args = true) : soundOnK prog args = true := by
+  unfold soundOnK
   rw [List.all_eq_true]
   intro ⟨n, o⟩ hno
   obtain ⟨T, hT, hm⟩ := h args hargs n o hno
-  exact List.any_eq_true.mpr ⟨(n, T), hT, by simp [hm]⟩
+  exact List.any_eq_true.mpr ⟨(n, T), hT, by simp [memK_of_mem o T hm]⟩
 
-theorem witness_args_ok : argsOk witnessProg.params [Obj.none] = true := by decide +kernel
+theorem witness_args_ok : argsOk witnessProg.params [Obj.none] = true := by
+  simp [argsOk, witnessProg, mem, Obj.same, Obj.tag, Obj.pyEq]
 theorem witness_flag : (infer witnessProg).flags.litEq = true := by decide +kernel
-theorem witness_unsound : soundOn witnessProg [Obj.none] = false := by decide +kernel
+theorem witness_unsound : soundOnK witnessProg [Obj.none] = false := by decide +kernel
 
 /-- **Witness for `literalEqMerge`:** the full statement is false. -/
 theorem literalEqMerge_witness : ¬ InferSound witnessProg := fun h => by
-  have := soundOn_of_InferSound witnessProg [Obj.none] h witness_args_ok
+  have := soundOnK_of_InferSound witnessProg [Obj.none] h witness_args_ok
   rw [witness_unsound] at this
   cases this
 
 /-! ## The hypotheses are satisfiable by non-trivial programs
 
 ```python
-def g(x: Optional[int], t: tuple[int, str]):
+def g(x: Literal[5, None], t: tuple[int, str]):
     y = x if x is not None else 0
     u = (y, t[1])
     if x is None:
@@ -113,15 +122,17 @@ def g(x: Optional[int], t: tuple[int, str]):
     return [z, y][0]
 ``` -/
 def exProg : Prog :=
-  { params := [.union [.typed C.int, .known .none], .seq C.tuple [.typed C.int, .typed C.str]],
+  { params := [.union [.known (.int 5), .known .none], .seq C.tuple [.typed C.int, .typed C.str]],
     body := [.assign 2 (.ite (.isNone 0 false) (.var 0) (.lit (.int 0))),
              .assign 3 (.disp false [.var 2, .sub (.var 1) 1]),
              .ifs (.isNone 0 true) [.assign 4 (.sub (.var 3) 1)] [.ret (.sub (.var 1) 0)],
              .ret (.sub (.disp true [.var 4, .var 2]) 0)] }
 
 example : (infer exProg).flags.none = true := by decide +kernel
-example : argsOk exProg.params [.none, .tuple [.int 3, .str "b"]] = true := by decide +kernel
-example : (exec exProg [.none, .tuple [.int 3, .str "b"]]).2.length = 13 := by decide +kernel
+theorem exProg_args_ok : argsOk exProg.params [.none, .tuple [.int 3, .str "b"]] = true := by
+  simp [argsOk, exProg, mem, memAny, memSeq, matchSeq, clsOf, Obj.same, Obj.tag, Obj.pyEq]
+  decide +kernel
+example : (exec exProg [.none, .tuple [.int 3, .str "b"]]).2.length = 12 := by decide +kernel
 example : InferSound exProg := infer_sound_partial exProg (by decide +kernel)
 
 end Pya.C01
